@@ -148,7 +148,7 @@ func (z *ioDecReader) resetBytes(in []byte) {
 func (z *ioDecReader) resetIO(r io.Reader, bufsize int, maxInitLen int, blist *bytesFreeList) {
 	buf := z.buf
 	*z = ioDecReader{}
-	z.maxInitLen = max(1024, uint(maxInitLen))
+	z.maxInitLen = uint(max(1024, maxInitLen)) // compare as int: a negative MaxInitLen (= default) must not become a huge uint
 	z.blist = blist
 	z.buf = blist.check(buf, max(256, bufsize))
 	z.bufsize = uint(max(0, bufsize))
